@@ -199,7 +199,7 @@ func runC02(c *Ctx) {
 		}
 		lastResume := cl.ResumeAt[len(cl.ResumeAt)-1]
 		for _, cr := range cl.Calls {
-			if cr.Tag == "meta" || len(cr.Cancels) > 0 || cr.Timeout > 0 || cr.Proc == "p.none" {
+			if cr.Tag == "meta" || len(cr.Cancels) > 0 || cr.Proc == "p.none" {
 				continue
 			}
 			for _, ce := range clients {
@@ -209,6 +209,9 @@ func runC02(c *Ctx) {
 				for _, iv := range ce.Invs {
 					if iv.Tag != cr.Tag || !iv.Final || !iv.ByYield || lastResume > iv.FinalT+30*time.Second {
 						continue
+					}
+					if cr.Timeout > 0 && iv.FinalT+2*time.Millisecond >= cr.SentT+time.Duration(cr.Timeout)*time.Millisecond {
+						continue // the router-side timeout may have ended the call first
 					}
 					c.Probe("obligation_result_retry")
 					if st := states[cl][cr.Req]; st == nil || st.finals == 0 {
